@@ -125,8 +125,10 @@ def archive_to_fsobj(src_tar):
         elif member.isfifo():
             yield fsFifo(location, **d)
         elif member.isdev():
-            d["major"] = int(member.major)
-            d["minor"] = int(member.minor)
+            # the tar header only stores the permission bits; fsDev wants the device type
+            d["mode"] |= stat.S_IFCHR if member.ischr() else stat.S_IFBLK
+            d["major"] = int(member.devmajor)
+            d["minor"] = int(member.devminor)
             yield fsDev(location, **d)
         else:
             raise AssertionError(
